@@ -196,6 +196,15 @@ def game_value(D):
 
 # ----------------------------------------------------------------------------------------------
 
+def gam_num(t):
+    """a number as text the reader accepts: its str2num needs a '.' to take the float branch
+    ('1e-07' is rejected by int()), so exponent-only reprs get a '.0'"""
+    r = repr(t)
+    if isinstance(t, float) and "." not in r and "e" in r:
+        r = r.replace("e", ".0e")
+    return r
+
+
 class FixedDraw(np.random.RandomState):
     """RandomState whose integer draws are fixed (tie_breaking='random')"""
     def __init__(self, k):
@@ -326,7 +335,7 @@ def run(ctx):
             for i in range(N):
                 for q in itertools.product(*[range(n) for n in reversed(nums)]):
                     toks.append(u[tuple(reversed(q))][i])
-            s = "%d\n%s\n\n%s\n" % (N, " ".join(map(str, nums)), " ".join(repr(t) for t in toks))
+            s = "%d\n%s\n\n%s\n" % (N, " ".join(map(str, nums)), " ".join(gam_num(t) for t in toks))
             if rng.random() < 0.5:
                 g = GAMReader.from_string(s)
             else:
